@@ -53,6 +53,9 @@ def parse_asan(err: str) -> dict:
     return dict(kind=kind, access=acc.group(1) if acc else None, frames=frames)
 
 
+_TIMEOUTS: dict = {}          # timeouts per function in this process (see Worker.call)
+
+
 class Worker:
     def __init__(self, src: Path, asan: bool):
         self.src, self.asan = Path(src), asan
@@ -143,12 +146,19 @@ class Worker:
             self._start()
             self.p.stdin.write((json.dumps(spec) + '\n').encode())
             self.p.stdin.flush()
+        # a kernel that hangs (e.g. an unbounded loop introduced by a change) makes every call that meets it wait for the full
+        # limit: after three timeouts of the same function in this process the violation is established and further calls of that
+        # function only get a tenth of the limit (still reported as timeouts), so that the check ends in minutes, not hours
+        fnkey = str((spec.get('call') or {}).get('fn') or spec.get('fn') or spec.get('name') or 'any') if isinstance(spec, dict) else 'any'
+        if _TIMEOUTS.get(fnkey, 0) >= 3:
+            timeout = max(2.0, timeout / 10.0)
         t0 = time.time()
         ans = self._read(timeout)
         dt = time.time() - t0
         if ans is None:
             self._kill()
             self.restarts += 1
+            _TIMEOUTS[fnkey] = _TIMEOUTS.get(fnkey, 0) + 1
             return dict(st='timeout', wall=round(dt, 1))
         if ans == '':
             try:
